@@ -6,6 +6,7 @@ use std::sync::Arc;
 verus! {
 //@ include prelude/numeric_id.vs
 //@ include prelude/bridge.vs
+broadcast use {nid::ax_id_eq, nid::ax_id_cmp, nid::ax_id_obeys_eq, nid::ax_id_obeys_cmp, nid::ax_id_obeys_partial_cmp, nid::ax_id_partial_cmp};
 
 // ---- more trusted environment, specific to this unit --------------------------------------------
 #[verifier::external_body]
